@@ -13,6 +13,9 @@ import (
 
 type Template struct {
 	programs map[string]*ast.Program
+
+	// paths holds the absolute path every template file was loaded from
+	paths map[string]string
 }
 
 func (t *Template) String(filename string, data map[string]any) (string, *fail.Error) {
@@ -22,9 +25,17 @@ func (t *Template) String(filename string, data map[string]any) (string, *fail.E
 		return "", envErr
 	}
 
-	absPath, err := templatePath(filename)
-	if err != nil {
-		return "", fail.New(0, filename, "template", "%s", err.Error())
+	// the path the file was loaded from stays the same, whatever directory
+	// is configured by now. A name that was not loaded has no such path
+	absPath, loaded := t.paths[filename]
+
+	if !loaded {
+		var err error
+
+		absPath, err = templatePath(filename)
+		if err != nil {
+			return "", fail.New(0, filename, "template", "%s", err.Error())
+		}
 	}
 
 	prog, ok := t.programs[filename]
